@@ -10,8 +10,9 @@ from . import cachecommon as CC
 from . import common as C
 
 TRUSTED = CC.TRUSTED_COMMON + [
-    "C05 stage O compares list-returning readers as multisets plus 'no record inserted by a later datagram precedes one inserted by an "
-    "earlier datagram'; the order of records inserted by one datagram is only compared against the Lean model (stage C)",
+    "C05 stage O compares list-returning readers as multisets and accepts any match from get_by_details (the sentence says 'the same records "
+    "with the same creation time and TTL'); the order of records in a list, and which match get_by_details picks (the latest inserted), are "
+    "compared against the Lean model only (stage C)",
 ]
 ASSUMPTIONS = [
     "D ops reach RecordManager.async_updates_from_response directly; W ops go as bytes through the real AsyncListener. Reading of 'sequence of "
